@@ -47,6 +47,17 @@ def system_fn(case):
             y1 = c[0] * x0 + c[1] * x1 ** 2 + 1.0
             y2 = c[2] * y1 ** 2 - y1 + c[3] * x1
             return (y1, y2)
+    elif topo == 'chain2a':      # anisotropic: degree 4 in the coupling variable (listed FIRST by the consumer), degree 1 in x1
+        def f(x0, x1):
+            y1 = c[0] * x0 + c[1] * x1 ** 2 + 1.0
+            y2 = 0.02 * y1 ** 4 - y1 + c[3] * x1
+            return (y1, y2)
+    elif topo == 'loop2s':       # affine loop with a STRONG coupling (loop gain -1.8): plain iteration diverges, the accelerated one solves it
+        def f(x0, x1):
+            A = np.array([[1.0, -1.2], [1.5, 1.0]])
+            rhs = np.array([c[0] * x0 + 1.0, c[1] * x1])
+            a, b = np.linalg.solve(A, rhs)
+            return (a, b, a + 2 * b)
     elif topo == 'chain3':
         def f(x0, x1):
             y1 = c[0] * x0 ** 2 + c[1] * x1 + 0.5
@@ -102,6 +113,22 @@ def build(case):
                  Component(lambda inputs: {'y2': c[2] * inputs['y1'] ** 2 - inputs['y1'] + c[3] * inputs['x1']},
                            inputs=[y1, x1], outputs=[y2], name='c2', vectorized=True, data_fidelity=(2, 2), training_data=sg())]
         cnames = ['y1']
+    elif topo == 'chain2a':
+        y1, y2 = cv('y1', 0), Variable('y2')
+        comps = [Component(lambda inputs: {'y1': c[0] * inputs['x0'] + c[1] * inputs['x1'] ** 2 + 1.0}, inputs=[x0, x1],
+                           outputs=[y1], name='c1', vectorized=True, data_fidelity=(2, 2), training_data=sg()),
+                 Component(lambda inputs: {'y2': 0.02 * inputs['y1'] ** 4 - inputs['y1'] + c[3] * inputs['x1']},
+                           inputs=[y1, x1], outputs=[y2], name='c2', vectorized=True, data_fidelity=(2, 1), training_data=sg())]
+        cnames = ['y1']
+    elif topo == 'loop2s':
+        a, b, out = cv('a', 0), cv('b', 1), Variable('out')
+        comps = [Component(lambda inputs: {'a': 1.2 * inputs['b'] + c[0] * inputs['x0'] + 1.0}, inputs=[b, x0], outputs=[a],
+                           name='ca', vectorized=True, data_fidelity=(2, 2), training_data=sg()),
+                 Component(lambda inputs: {'b': -1.5 * inputs['a'] + c[1] * inputs['x1']}, inputs=[a, x1], outputs=[b],
+                           name='cb', vectorized=True, data_fidelity=(2, 2), training_data=sg()),
+                 Component(lambda inputs: {'out': inputs['a'] + 2 * inputs['b']}, inputs=[a, b], outputs=[out], name='co',
+                           vectorized=True)]
+        cnames = ['a', 'b']
     elif topo == 'chain3':
         y1, y2, y3 = cv('y1', 0), cv('y2', 1), Variable('y3')
         comps = [Component(lambda inputs: {'y1': c[0] * inputs['x0'] ** 2 + c[1] * inputs['x1'] + 0.5}, inputs=[x0, x1],
@@ -228,6 +255,11 @@ def run(ctx: core.Ctx, only=None) -> core.Result:
             c_ = gen_case(ctx.rng)
             c_.update(norm=['zscore', 'zscore', 'linear(1, 300)'][k % 3], bounds='update', guess=['narrow', 'offset', 'narrower'][k % 3],
                       topo=['chain2', 'chain3', 'diamond', 'loop2'][k % 4])
+            cases.append(c_)
+        for k in range(ctx.scale(2, 8)):      # an anisotropic consumer that lists the coupling variable first; a strongly coupled loop
+            c_ = gen_case(ctx.rng)
+            c_.update(norm=[None, 'linear(0.5, 1)'][k % 2], bounds=['update', 'fixed'][k % 2], guess=['exact', 'wide'][k % 2],
+                      topo=['chain2a', 'loop2s'][k % 2])
             cases.append(c_)
         for k in range(ctx.scale(2, 8)):      # feedback loops whose fixed coupling bounds do NOT contain the coupled solution
             c_ = gen_case(ctx.rng)
